@@ -82,6 +82,9 @@ class Ctx:
         return self.fresh(name, sort)
 
     def assume(self, f):
+        from .spec import Forall
+        if isinstance(f, Forall):
+            f = f.as_formula()
         if f is True:
             return
         if f is False:
@@ -95,6 +98,17 @@ class Ctx:
             self.feas.add(f)
 
     def prove(self, name, goal, node=None, kind="post"):
+        from .spec import Forall
+        if isinstance(goal, Forall):
+            cs, seeds, body = goal.skolemized(self)
+            hyps = list(self.facts)
+            for n_, t in enumerate(seeds):
+                # keep the seed term alive in the e-graph: g(t) = c with g, c fresh (conservative)
+                g = z3.Function("seed!%s" % t.sort().name(), t.sort(), Int)
+                hyps.append(g(t) == self.fresh("seedc", Int))
+            self.obligs.append(Oblig(name, hyps, z3.simplify(body), _loc(node), kind))
+            self.assume(goal.as_formula())
+            return
         if not is_z3(goal):
             goal = z3.BoolVal(bool(goal))
         goal = z3.simplify(goal)
@@ -313,7 +327,15 @@ class Interp:
     def branch(self, v, node=None):
         return self.ctx.decide(self.truth(v, node))
 
+    def unopt(self, v, node):
+        """use of an Optional value where None is not acceptable: obligation that it is not None, then unwrap"""
+        if isinstance(v, OptV):
+            self.safe("not_none", z3.Not(v.isnone), node)
+            return v.val
+        return v
+
     def binop(self, op, a, b, node):
+        a, b = self.unopt(a, node), self.unopt(b, node)
         r = self.lib.binop(self, op, a, b, node)
         if r is not NotImplemented:
             return r
@@ -499,7 +521,14 @@ class Interp:
         return node.value
 
     def eval_Name(self, node, fr):
-        return self.lookup(node.id, fr, node)
+        v = self.lookup(node.id, fr, node)
+        if isinstance(v, OptV):
+            # narrow Optional values when the path condition already decides none-ness
+            if not self.ctx.feasible(v.isnone):
+                return v.val
+            if not self.ctx.feasible(z3.Not(v.isnone)):
+                return None
+        return v
 
     def eval_Tuple(self, node, fr):
         out = []
@@ -644,6 +673,7 @@ class Interp:
 
     # ------------------------------------------------------------------ attribute / item protocol
     def getattr(self, v, name, node, fr=None):
+        v = self.unopt(v, node)
         if isinstance(v, ModuleRef):
             d = v.dotted + "." + name
             if repo.is_repo_module(v.dotted):
@@ -669,6 +699,22 @@ class Interp:
             model = CLASS_MODELS.get(v.clsname, {})
             if name in model:
                 return model[name](self, v)
+            from .spec import CLASS_QUAL
+            q = CLASS_QUAL.get(v.clsname)
+            if q is not None:
+                cref = self.classref(q)
+                if name == "__class__":
+                    return cref
+                meth = self.find_method(cref, name)
+                if meth is not None:
+                    kind, target = meth
+                    if kind == "property":
+                        return self.call(BoundMethod(v, target), [], {}, node, fr)
+                    if kind == "static":
+                        return target
+                    if kind == "classmethod":
+                        return BoundMethod(cref, target)
+                    return BoundMethod(v, target)
             raise Unsupported("attribute %r of abstract %s" % (name, v.clsname), node)
         if isinstance(v, ClassRef):
             if name == "__name__":
@@ -733,6 +779,10 @@ class Interp:
             if isinstance(v, Obj) and isinstance(v.cls, ClassRef):
                 return any(c.qualname == cls.qualname for c in self.class_mro(v.cls))
             if isinstance(v, AObj):
+                from .spec import CLASS_QUAL
+                q = CLASS_QUAL.get(v.clsname)
+                if q is not None:
+                    return any(c.qualname == cls.qualname for c in self.class_mro(self.classref(q)))
                 return v.clsname == cls.qualname or v.clsname == cls.qualname.rsplit(".", 1)[-1]
             return False
         r = self.lib.isinstance_(self, v, cls, node)
@@ -741,6 +791,7 @@ class Interp:
         raise Unsupported("isinstance against %r" % (cls,), node)
 
     def getitem(self, v, idx, node):
+        v = self.unopt(v, node)
         if isinstance(v, (tuple, PyList)):
             items = v if isinstance(v, tuple) else v.items
             if isinstance(idx, SliceV):
@@ -1033,6 +1084,8 @@ class Interp:
             recv = loc.get("self")
             for f, t in creates.items():
                 recv.fields[f] = t.fresh(self.ctx, "new.%s" % f)
+                if hasattr(recv.fields[f], "origin"):
+                    recv.fields[f].origin = "fresh"  # arrays allocated by a constructor belong to the new object
         if ct.returns is None:
             ret = None
         else:
@@ -1086,7 +1139,7 @@ class Interp:
 
     def exec_AugAssign(self, st, fr):
         if isinstance(st.target, ast.Name):
-            cur = self.lookup(st.target.id, fr, st)
+            cur = self.unopt(self.eval_Name(st.target, fr), st)
             r = self.lib.inplace(self, st.op, cur, lambda: self.eval(st.value, fr), st)
             if r is not NotImplemented:
                 return
@@ -1382,6 +1435,11 @@ class Interp:
         return NS(d, "local variable")
 
     def check_invariant(self, spec, fr, itv, L, label, phase, node):
+        for n in getattr(spec, "fresh_vars", None) or []:
+            v = fr.locals.get(n)
+            v = v.val if isinstance(v, OptV) else v
+            if v is not None and getattr(v, "origin", "fresh") != "fresh":
+                self.ctx.prove("%s/fresh:%s:%s" % (label, n, phase), z3.BoolVal(False), node, "frame")
         s = self.state_view(fr, itv, L)
         if spec.use:
             for f in _aslist(spec.use(s)):
@@ -1390,6 +1448,11 @@ class Interp:
             self.ctx.prove("%s/%s:%s" % (label, nm, phase), f, node, "inv")
 
     def assume_invariant(self, spec, fr, itv, L):
+        for n in getattr(spec, "fresh_vars", None) or []:
+            v = fr.locals.get(n)
+            v = v.val if isinstance(v, OptV) else v
+            if v is not None and hasattr(v, "origin"):
+                v.origin = "fresh"
         s = self.state_view(fr, itv, L)
         for nm, f in named(_aslist(spec.invariant(s)), "inv"):
             self.ctx.assume(f)
